@@ -36,6 +36,10 @@ fn sparse_command(y: usize, x: usize, _cell: fast_qr::Module) -> String {
     }
 }
 
+fn panicking_command(_y: usize, _x: usize, _cell: fast_qr::Module) -> String {
+    panic!("a caller-supplied shape that fails")
+}
+
 pub const LOGO_NAME: &str = "c19logo.png";
 
 /// the builder of a target kind:
@@ -56,6 +60,10 @@ fn svg_for(kind: &str) -> SvgBuilder {
         "svgk" => {
             // one layer with its own colour and nothing else (no module_color, no image)
             b.shape_color(Shape::Circle, [200, 30, 30, 255]);
+        }
+        "svgr" => {
+            // an embedded image on a round backdrop (the renderer needs a clip path or a second element for it)
+            b.image("logo.png".to_string()).image_background_shape(fast_qr::convert::ImageBackgroundShape::Circle).image_background_color([255, 255, 0, 255]);
         }
         "svgi" => {
             b.image("data:image/svg+xml,%3Csvg xmlns='http://www.w3.org/2000/svg' viewBox='0 0 2 2'%3E%3Cpath d='M0 0h1v1H0z'/%3E%3C/svg%3E".to_string());
@@ -152,6 +160,24 @@ pub fn child_main(args: &[String]) -> i32 {
         let d = format!("{:?} / {}", e, e);
         let c: fast_qr::convert::ConvertError = e.into();
         format!("{} -> {:?}", d, c)
+    }
+    // kinds svgp / pngp: the export comes after exports that fail inside the renderer (an empty picture; a caller-supplied
+    // shape that panics; both caught) and after an in-memory rendering of the same builder: none of it may change what
+    // this export does
+    if kind == "svgp" || kind == "pngp" || kind == "svgr" {
+        let scratch = format!("{}.prelude", path.replace('\0', ""));
+        let _ = subject::guarded(|| {
+            let mut b = ImageBuilder::default();
+            b.fit_width(0);
+            b.to_file(&q, &scratch)
+        });
+        let _ = subject::guarded(|| {
+            let mut b = SvgBuilder::default();
+            b.shape(Shape::Command(panicking_command));
+            b.to_file(&q, &scratch)
+        });
+        let _ = subject::guarded(|| svg_for(kind).to_str(&q).len());
+        let _ = std::fs::remove_file(&scratch);
     }
     let r = subject::guarded(|| if kind.starts_with("svg") { svg_for(kind).to_file(&q, &path).map_err(use_svg_err) } else { png_for(kind).to_file(&q, &path).map_err(use_png_err) });
     match r {
@@ -283,7 +309,7 @@ fn judge_os(run: &Run, path: &str) -> Vec<(String, String)> {
 
 pub fn run(ctx: &Ctx) -> Collector {
     let col = Collector::new("C19", "fault_enumeration");
-    col.set_rule("cases = for SvgBuilder::to_file and ImageBuilder::to_file on 14 (thorough 22) builder/symbol targets (default, rounded squares, a single layer with its own colour, a fit box of 4e9 x 300, a caller-supplied shape that draws one module in seven, an embedded image given as a parameterless data URI, fit_width, an embedded image given as a relative file name present in the working directory but not in the output directory) whose output sizes range from 0.2 KB to 0.5 MB and straddle the 4 KiB, 8 KiB and 64 KiB buffer sizes: (i) real OS faults: missing directory, path is a directory, /dev/full (ENOSPC at write time), path containing NUL, empty path, long paths with multi-byte characters at four alignments, a 300-character name; (i') no fault over 7 kinds of file already present and through 3 relative paths with . and .. components from a deeper working directory (identical, same length differing in the last / first / one late byte, longer, shorter, empty); (ii) faults injected below the crate by an LD_PRELOAD shim over open/open64/openat/write/close: ALL fault sequences of up to 2 (thorough 3) deviations, a deviation = (k-th open of the target, class in {EACCES, EROFS, ENOENT, EISDIR, ENOSPC, EMFILE, ETXTBSY, EBUSY, and persistently EAGAIN, ETXTBSY, EBUSY, ETIMEDOUT}) or (k-th write to the target, class in {ENOSPC, EIO, EDQUOT, EFBIG, EPIPE, ECONNRESET, EINTR, short 1 byte, short n/2, short n-1, and persistently EAGAIN, ENOSPC, EIO}), k ranging over every call index in the syscall log of the run being extended (DFS over prefixes); each run is a child process calling the real to_file, once with no file present and once over a stale 1 MiB file (longer than any output); oracle: no panic/abort; Ok => file bytes = to_str()/to_bytes() of the same builder; after any delivered fault Err is accepted, Ok only with the exact bytes in the file (a writer that recovers and completes the file is right); non-trivial = a fault was delivered; distinct = distinct (target, plan) pairs with distinct syscall logs");
+    col.set_rule("cases = for SvgBuilder::to_file and ImageBuilder::to_file on 17 (thorough 25) builder/symbol targets (default, rounded squares, the default after exports that failed inside the renderer, an embedded image on a round backdrop rendered in memory first, a single layer with its own colour, a fit box of 4e9 x 300, a caller-supplied shape that draws one module in seven, an embedded image given as a parameterless data URI, fit_width, an embedded image given as a relative file name present in the working directory but not in the output directory) whose output sizes range from 0.2 KB to 0.5 MB and straddle the 4 KiB, 8 KiB and 64 KiB buffer sizes: (i) real OS faults: missing directory, path is a directory, /dev/full (ENOSPC at write time), path containing NUL, empty path, long paths with multi-byte characters at four alignments, a 300-character name; (i') no fault over 7 kinds of file already present and through 3 relative paths with . and .. components from a deeper working directory (identical, same length differing in the last / first / one late byte, longer, shorter, empty); (ii) faults injected below the crate by an LD_PRELOAD shim over open/open64/openat/write/close: ALL fault sequences of up to 2 (thorough 3) deviations, a deviation = (k-th open of the target, class in {EACCES, EROFS, ENOENT, EISDIR, ENOSPC, EMFILE, ETXTBSY, EBUSY, and persistently EAGAIN, ETXTBSY, EBUSY, ETIMEDOUT}) or (k-th write to the target, class in {ENOSPC, EIO, EDQUOT, EFBIG, EPIPE, ECONNRESET, EINTR, short 1 byte, short n/2, short n-1, and persistently EAGAIN, ENOSPC, EIO}), k ranging over every call index in the syscall log of the run being extended (DFS over prefixes); each run is a child process calling the real to_file, once with no file present and once over a stale 1 MiB file (longer than any output); oracle: no panic/abort; Ok => file bytes = to_str()/to_bytes() of the same builder; after any delivered fault Err is accepted, Ok only with the exact bytes in the file (a writer that recovers and completes the file is right); non-trivial = a fault was delivered; distinct = distinct (target, plan) pairs with distinct syscall logs");
     col.assume("the OS below the syscall boundary is modelled by the shim's fault classes; faults at close/fsync are not modelled because the crate does not call fsync and ignores close errors like std does");
     let thorough = ctx.tier.thorough();
     let dir = format!("{}/scratch/c19-{}", ctx.verif_dir, std::process::id());
@@ -295,7 +321,7 @@ pub fn run(ctx: &Ctx) -> Collector {
     // svgd = default SvgBuilder (v1 3.0 KB, v3 5.6 KB, v4 7.0 KB, v5 8.9 KB), svg = rounded squares (v1 9 KB, v10 70 KB),
     // pngd = default ImageBuilder at original scale (a few hundred bytes), png = fit_width(200)
     // svgc = a caller-supplied shape that draws little (v2: 0.3 KB), svgi / pngi = with an embedded image
-    let mut targets: Vec<(&str, usize)> = vec![("svgd", 1), ("svgd", 4), ("svgd", 5), ("svg", 1), ("svg", 10), ("pngd", 1), ("png", 1), ("png", 10), ("svgc", 2), ("svgi", 1), ("pngi", 2), ("svgk", 3), ("pngk", 1), ("pngw", 1)];
+    let mut targets: Vec<(&str, usize)> = vec![("svgd", 1), ("svgd", 4), ("svgd", 5), ("svg", 1), ("svg", 10), ("pngd", 1), ("png", 1), ("png", 10), ("svgc", 2), ("svgi", 1), ("pngi", 2), ("svgk", 3), ("pngk", 1), ("pngw", 1), ("svgp", 1), ("pngp", 1), ("svgr", 2)];
     if thorough {
         targets.extend([("svgd", 2), ("svgd", 3), ("svgd", 40), ("svg", 25), ("pngd", 40), ("png", 25), ("svgc", 20), ("svgi", 7)]);
     }
